@@ -183,18 +183,37 @@ def rinfo_source(channel) -> None:
     )
 
 
-def _find_non_builtin_globals(source: str, codeobj: types.CodeType) -> list[str]:
+def _find_non_builtin_globals(
+    source: str,
+    codeobj: types.CodeType,
+    module_globals: dict[str, Any] | None = None,
+) -> list[str]:
     import ast
     import builtins
 
+    def shadowed(name: str) -> bool:
+        # a module-level name that hides a builtin is a global as well
+        # (dunder names like __name__ are provided on the remote side)
+        return (
+            module_globals is not None
+            and name in module_globals
+            and not (name.startswith("__") and name.endswith("__"))
+            and module_globals[name] is not builtins.__dict__[name]
+        )
+
     vars = dict.fromkeys(codeobj.co_varnames)
-    return [
-        node.id
-        for node in ast.walk(ast.parse(source))
-        if isinstance(node, ast.Name)
-        and node.id not in vars
-        and node.id not in builtins.__dict__
-    ]
+    found = []
+    for node in ast.walk(ast.parse(source)):
+        if isinstance(node, ast.Name):
+            if node.id not in vars and (
+                node.id not in builtins.__dict__ or shadowed(node.id)
+            ):
+                found.append(node.id)
+        elif isinstance(node, ast.Global):
+            # a global statement refers to the module namespace whatever
+            # the name means in an enclosing function
+            found.extend(node.names)
+    return found
 
 
 def _source_of_function(function: types.FunctionType | Callable[..., object]) -> str:
@@ -224,7 +243,7 @@ def _source_of_function(function: types.FunctionType | Callable[..., object]) ->
 
     source = textwrap.dedent(source)  # just for inner functions
 
-    used_globals = _find_non_builtin_globals(source, codeobj)
+    used_globals = _find_non_builtin_globals(source, codeobj, function.__globals__)
     if used_globals:
         raise ValueError("the use of non-builtin globals isn't supported", used_globals)
 
